@@ -308,3 +308,43 @@ Example rejected_example :
   parse [117; 115; 105; 110; 103; 32; 70; 111; 111; 32; 61; 32; 117; 105; 110; 116; 50; 52; 10]
   = Error {| e_line := 1; e_col := 13; e_kind := EToken |}.
 Proof. vm_compute. reflexivity. Qed.
+
+(* non-vacuity of the corruption theorems: a three-item document (alias of an integer, struct with two members, alias of a buffer) in
+   the default style meets the premises of every theorem above at the sites named below, and the corrupted texts are rejected at the
+   stated lines (by evaluation of the model parser) *)
+Definition ex_u64 : intty := {| it_unsigned := true; it_size := 8; it_sizeref := None |}.
+Definition ex_i32 : intty := {| it_unsigned := false; it_size := 4; it_sizeref := None |}.
+Definition ex_pair : struct :=
+  {| s_name := "Pair"%string; s_disp := SdNone;
+     s_fields := [Field "size"%string (FInt ex_i32) VNone DispNone None None; Field "amount"%string (FName "Amount"%string) VNone DispNone None None];
+     s_factory_type := None; s_attrs := None; s_comment := None; s_requires_unaligned := false |}.
+Definition ex_doc : list item :=
+  [IDecl (DAlias "Amount"%string (LInt ex_u64) None); IDecl (DStruct ex_pair); IDecl (DAlias "Hash256"%string (LBuffer 32) None)].
+Definition ex_line_of (r : result (list item)) : Z := match r with Error pos => e_line pos | _ => 0 end.
+
+Example premises_nonvacuous :
+  let st := default_style in let tl := tlines T_now st ex_doc in
+  wf_style st = true /\ wf_doc ex_doc = true
+  (* alias sites: width / case / suffix at item 0, attribute at item 2, member-outside at any j <= 3 *)
+  /\ (In [50; 52] [[50; 52]; [55]; [49; 50; 56]] /\ nth_error ex_doc 0 = Some (IDecl (DAlias "Amount"%string (LInt ex_u64) None))
+      /\ type_rest 95 = false /\ is_ws 95 = false /\ 95 <> 61 /\ plainc (95 :: [120]) = true
+      /\ nth_error ex_doc 2 = Some (IDecl (DAlias "Hash256"%string (LBuffer 32) None)) /\ plainc [120] = true /\ (3 <= length ex_doc)%nat)
+  (* any statement line: physical line 3 is the member line `size = int32`, lines 6 and 2 carry type names *)
+  /\ (nth_error tl 3 = Some (PStmt (st_indent st) (of_string "size"%string ++ [32; 61; 32] ++ r_int T_now ex_i32)) /\ wf_prop T_now "size"%string = true
+      /\ nth_error tl 6 = Some (PStmt [] (type_line_head T_now TLUsing ++ [32] ++ of_string "Hash256"%string ++ of_string " = binary_fixed(32)"%string))
+      /\ wf_type T_now "Hash256"%string = true /\ plainc (of_string " = binary_fixed(32)"%string) = true
+      /\ nth_error tl 2 = Some (PStmt [] (type_line_head T_now (TLStruct SdNone) ++ [32] ++ of_string "Pair"%string ++ []))
+      /\ wf_type T_now "Pair"%string = true)
+  (* final line end / struct without members: the shapes ds0 ++ [it] and pre ++ struct :: post *)
+  /\ (ex_doc = firstn 2 ex_doc ++ [IDecl (DAlias "Hash256"%string (LBuffer 32) None)]
+      /\ ex_doc = firstn 1 ex_doc ++ IDecl (DStruct ex_pair) :: skipn 2 ex_doc)
+  (* the rejections *)
+  /\ ex_line_of (parse (replace_line st ex_doc (site_line T_now st ex_doc 0) (alias_head T_now "Amount"%string ++ int_prefix T_now ex_u64 ++ [50; 52]))) = 1
+  /\ ex_line_of (parse (replace_line st ex_doc 3 (of_string "size"%string ++ [32; 61; 32] ++ int_prefix T_now ex_i32 ++ [55]))) = 4
+  /\ ex_line_of (parse (replace_line st ex_doc 4 (64 :: 81 :: [120]))) = 5
+  /\ ex_line_of (parse (replace_line st ex_doc 2 (type_line_head T_now (TLStruct SdNone) ++ [32] ++ lower_name "Pair"%string ++ []))) = 3
+  /\ ex_line_of (parse (insert_line st ex_doc (length (tlines T_now st (firstn 1 ex_doc))) member_text)) = 3
+  /\ ex_line_of (parse (delete_final_line_end (render st ex_doc))) = 7
+  /\ ex_line_of (parse (struct_body_deleted st (firstn 1 ex_doc) ex_pair (skipn 2 ex_doc))) = 4.
+Proof. vm_compute. repeat split; try reflexivity; try discriminate; auto. Qed.
+Print Assumptions premises_nonvacuous.
